@@ -23,26 +23,26 @@ from .base import Prop
 # shares it, e.g. the source of the flatten) after the grouped labels were read leaves the grouped array answering
 # with the old labels (`b = a.flatten(); b.labels; a.axes[0][0] = 99; b.labels` vs `b.unflatten().labels`).
 # While this is open the history steps do not mutate an Axis that is a member of a live grouped axis.
-SKIP_GROUPED_MEMBER_MUTATION = True
+SKIP_GROUPED_MEMBER_MUTATION = False
 # TODO(defect): `a.axes = <list of label arrays | (name, labels) pairs | Axis objects>` with a wrong length or a wrong
 # number of axes is accepted (only an `Axes` instance is size-checked): the array is left ill-formed. While this is
 # open the `axset` stratum generates wrong sizes / counts only through the `Axes` form.
-SKIP_AXES_SETTER_UNCHECKED = True
+SKIP_AXES_SETTER_UNCHECKED = False
 # TODO(defect): `Axis.sort()` (in-place sort of the labels) sets the cached monotonicity flag to True although
 # `is_monotonic()` of a freshly built axis is STRICT: on labels with duplicates ([2, 1, 2] -> [1, 2, 2]) the sorted axis
 # answers is_monotonic() == True (fresh: False) and every later union / arithmetic / align takes the sorted-merge path
 # (np.union1d: duplicates dropped, labels re-ordered) instead of the concatenation path of a fresh array.
 # While this is open the `sort_inplace` step skips axes whose labels are not all distinct.
-SKIP_SORT_INPLACE_DUPLICATES = True
+SKIP_SORT_INPLACE_DUPLICATES = False
 # TODO(defect): the 1-D shortcuts spelt with an EMPTY python list, `DimArray(v, axes=('x', []))` (TypeError) and
 # `DimArray(v, axes=[], dims='x')` (read as "no axes": shape mismatch), are rejected although the same request with an
 # empty ndarray is accepted (tools.is_array1d_equiv reads a[0]).  While this is open the list spellings need size >= 1.
-SKIP_EMPTY_LIST_SHORTCUT = True
+SKIP_EMPTY_LIST_SHORTCUT = False
 # TODO(defect): flatten / reshape return an array whose grouped axis cannot report its labels (`.values`, repr raise)
 # (1) when one of the grouped dimensions has length 0 (IndexError in axes._flatten), (2) when one of the grouped
 # dimensions is itself a grouped axis (NumPy 2: ValueError "inhomogeneous shape" in axes._flatten).
 # While this is open the `flatten` / `reshape` steps group plain, non-empty dimensions only.
-SKIP_FLATTEN_EMPTY_OR_NESTED = True
+SKIP_FLATTEN_EMPTY_OR_NESTED = False
 
 
 # ---------------------------------------------------------------- well-formedness (statement of the property)
@@ -316,6 +316,7 @@ class HistState:
         self.env = env
         self.dss = []
         self.n = 0          # counter behind fresh dimension / variable names
+        self.problems = []  # a step that visibly did something else than asked (reported like an ill-formed array)
 
     def fresh(self, p):
         self.n += 1
@@ -392,7 +393,10 @@ class C05(Prop):
             "reindex / align, dropna / fillna, DimArray(a) / *_like, Dataset insertion / extraction / operations; systematic grids "
             "(every label setter x kind of new labels on a cache-primed axis; every derivation followed by a change of the derived "
             "array's labels / name) plus random histories; then every live array and every Dataset variable is checked for "
-            "well-formedness and probed against a freshly built equal array; "
+            "well-formedness and probed against a freshly built equal array; (b2) grouped: one flatten of two dimensions "
+            "(any order, rank 2-3), then a selection along the grouped axis (position slice / list, boolean mask through "
+            "compress_axis and [], dropna, diff by position and by tuple of names, slicing the axis, is_monotonic) compared "
+            "with the same operation on a freshly constructed array holding the same tuple labels on a plain axis; "
             "(c) DimArray.__init__ wrapped during the run: every array the library constructs is checked for well-formedness. "
             "Non-trivial = rank >= 1; distinct = canonical JSON")
     assumptions = ["dimension names are comma-free non-empty strings (the quantifier of the property)"]
@@ -545,6 +549,22 @@ class C05(Prop):
             form = "Axes"          # TODO(defect): see SKIP_AXES_SETTER_UNCHECKED
         return {"op": "axset", "axes": old, "new": new, "vkind": arr["vkind"], "form": form, "_malformed": malformed}
 
+    GROUPED_PROBES = ["ix_slice", "ix_list", "compress_axis", "getitem_mask", "dropna", "is_monotonic", "axis_slice", "diff", "diff_tuple"]
+
+    def gen_grouped(self, rng):
+        """one flatten, then an operation that selects along the grouped axis: the flattened array must answer like a
+        freshly constructed array with the same values, labels (tuples) and dims (the grouped axis' cached ordering
+        state is part of what `Axis.__getitem__` reads)"""
+        rank = rng.choice([2, 2, 3])
+        arr = gen.clean(gen.rand_array(rng, rank=rank, maxn=3, minn=1, vkind="f"))
+        i, j = rng.sample(range(rank), 2)
+        shape = [len(a["labels"]) for a in arr["axes"]]
+        n = 1
+        for m in shape:
+            n *= m
+        return {"op": "grouped", "axes": arr["axes"], "vkind": "f", "group": [i, j], "probe": rng.choice(self.GROUPED_PROBES),
+                "nan_at": sorted(rng.sample(range(n), rng.randint(0, min(2, n))))}
+
     def gen_hist(self, rng, tier="quick"):
         """a history of derivations, queries, relabellings, renamings and assignments over a few live arrays and
         Datasets, then probes.  Every index of a step is reduced modulo the extent it addresses when the step runs."""
@@ -609,7 +629,8 @@ class C05(Prop):
                 steps.append(["set_labels", k, ri(), rng.choice(SET_VIA), rng.choice(SET_HOW)])
             elif t == "rename":
                 steps.append(["rename", k, ri(), rng.choice(["name_setter", "set_axis_name", "dims_setter", "dims_dict", "axis_set_name",
-                                                             "axes_setitem", "set_axis_copy"])])
+                                                             "axes_setitem", "set_axis_copy", "dims_swap", "dims_swap_dict", "dims_dup",
+                                                             "dims_dup_dict"])])
             elif t == "reduce":
                 steps.append(["reduce", k, ri(), rng.choice(["sum", "mean", "min", "max", "median", "prod", "std"])])
             elif t == "cum":
@@ -721,6 +742,8 @@ class C05(Prop):
                 yield self.gen_xnames(rng)
             else:
                 yield self.gen_helper(rng)
+        for _ in range(120 if quick else 2000):
+            yield self.gen_grouped(rng)
         for _ in range(600 if quick else 6000):
             r = rng.random()
             if r < 0.5:
@@ -1043,6 +1066,29 @@ class C05(Prop):
                 a.dims = tuple(new if e == d else a.dims[e] for e in range(nd))
             elif via == "dims_dict":
                 a.dims = {a.dims[d]: new}
+            elif via in ("dims_swap", "dims_swap_dict", "dims_dup", "dims_dup_dict"):
+                # the new names reuse current ones: a rotation of the names is a plain renaming (each axis gets the name
+                # given for it), a repeated name must be refused (the array would be ill-formed: checked after the history)
+                if nd < 2 or any(frozen(x) for x in a.axes):
+                    return "skip"
+                # (an Axis object shared with another live array - views, transposes, Dataset variables - carries its new
+                # name over there, where it may collide: `Axis.name` cannot know; reported separately, not generated)
+                holders = [h for h in S.arrays() + S.dss if h is not a]
+                if any(x is y for h in holders for y in h.axes for x in a.axes):
+                    return "skip"
+                cur = a.dims
+                want = cur[1:] + cur[:1] if "swap" in via else tuple(cur[(d + 1) % nd] if e == d else cur[e] for e in range(nd))
+                raised = None
+                try:
+                    a.dims = dict(zip(cur, want)) if via.endswith("dict") else want
+                except Exception as e:  # noqa
+                    raised = e
+                expect = (cur,) if raised is not None else (want,) if "swap" in via else ()
+                if a.dims not in expect:
+                    S.problems.append({"var": st[1] % len(env), "why": "dims_setter", "dims": list(a.dims), "asked": list(want),
+                                       "raised": raised is not None})
+                if raised is not None:
+                    raise raised
             elif via == "axis_set_name":
                 a.axes[d].set(name=new)
             else:
@@ -1228,6 +1274,7 @@ class C05(Prop):
             if why:
                 illformed.append({"var": k, "why": why, "dims": [str(getattr(ax, "name", None)) for ax in a.axes],
                                   "axes": [_n(ax) for ax in a.axes], "values_shape": list(np.shape(a.values))})
+        illformed = S.problems + illformed
         if illformed:
             return {"ok": [], "illformed": illformed, "steps": log}
         # probes: every live array against a freshly constructed equal array
@@ -1328,11 +1375,64 @@ class C05(Prop):
         why = wf_problem(a)
         return {"set": res, "wf": why, "before": before, "after": core.guarded(lambda: core.obs_array(a))}
 
+    def run_grouped(self, c):
+        a = core.build_array({"axes": c["axes"], "vkind": c["vkind"], "nan_at": c.get("nan_at", ())}, 0)
+        names = tuple(c["axes"][k]["name"] for k in c["group"])
+        g = a.flatten(names, insert=0)
+        gax = g.axes[0]
+        fresh = DimArray(np.array(g.values, copy=True), axes=[Axis(_obj_array(list(gax.values)), gax.name)] +
+                         [Axis(np.array(x.values, copy=True), x.name) for x in g.axes[1:]])
+        n = int(gax.size)
+        mask = np.array([k % 2 == 0 for k in range(n)])
+
+        def probe(x, name):
+            if name == "ix_slice":
+                return x.ix[1:3]
+            if name == "ix_list":
+                return x.ix[[0, n - 1]]
+            if name == "compress_axis":
+                return x.compress_axis(mask, axis=0)
+            if name == "getitem_mask":
+                return x[(mask,) + (slice(None),) * (x.ndim - 1)]
+            if name == "dropna":
+                return x.dropna(axis=0)
+            if name == "is_monotonic":
+                return bool(x.axes[0].is_monotonic())
+            if name == "axis_slice":
+                return np.asarray(x.axes[0][1:].values)
+            if name == "diff":
+                return x.diff(axis=0)
+            raise ValueError(name)
+
+        def run(x):
+            with warnings.catch_warnings():
+                warnings.simplefilter("ignore")
+                if c["probe"] == "diff_tuple":
+                    # the tuple form of the axis argument flattens (insert=0) and differences along the grouped axis
+                    return conv(a.diff(axis=names) if x is g else fresh.diff(axis=0))
+                return conv(probe(x, c["probe"]))
+        return {"hist": core.guarded(lambda: run(g)), "fresh": core.guarded(lambda: run(fresh)), "wf": wf_problem(g)}
+
+    def judge_grouped(self, c, io):
+        bad = []
+        if io["wf"]:
+            bad.append("illformed_after_flatten:" + io["wf"])
+        h, f = io["hist"], io["fresh"]
+        if ("err" in h) != ("err" in f):
+            bad.append("grouped_outcome:" + c["probe"])
+        elif "ok" in h and h["ok"] != f["ok"]:
+            bad.append("grouped_differs:" + c["probe"])
+        if not bad:
+            return None
+        return {"kind": "P", "differs": sorted(set(bad)), "msg": h.get("msg") or f.get("msg"), "impl": io}
+
     def impl(self, c):
         monitor_on()
         try:
             if c["op"] == "hist":
                 return self.run_hist(c)
+            if c["op"] == "grouped":
+                return self.run_grouped(c)
             if c["op"] == "ctor2":
                 return self.run_ctor2(c)
             if c["op"] == "helper2":
@@ -1371,7 +1471,7 @@ class C05(Prop):
             monitor_off()
 
     def request(self, c):
-        if c["op"] in ("hist", "ctor2", "helper2", "axset"):
+        if c["op"] in ("hist", "ctor2", "helper2", "axset", "grouped"):
             return dict(DUMMY)
         if c["op"] == "helper":
             shape = [len(a["labels"]) for a in c["axes"]]
@@ -1470,6 +1570,8 @@ class C05(Prop):
             return self.judge_helper2(c, io)
         if c["op"] == "axset":
             return self.judge_axset(c, io)
+        if c["op"] == "grouped":
+            return self.judge_grouped(c, io)
         if c["op"] == "hist":
             if "err" in io:
                 return {"kind": "P", "differs": ["outcome:" + io["err"]], "msg": io.get("msg")}
@@ -1585,6 +1687,9 @@ class C05(Prop):
         elif c["op"] == "axset":
             f["form"] = c["form"]
             f["outcome"] = "err" if "err" in io["set"] else "ok"
+        elif c["op"] == "grouped":
+            f["probe"] = c["probe"]
+            f["outcome"] = "err" if "err" in io["hist"] else "ok"
         return f
 
     def size(self, c):
